@@ -105,6 +105,7 @@ Proof.
             | Some _ => false
             | None => fmode_in c && (in_count (fc s0) =? 0)%Z
             end); [cbn; auto|].
+  destruct (loc_out c (trig_of c a)); [cbn; auto|].
   match goal with |- context [if ?b then _ else _] => destruct b end; cbn; auto.
 Qed.
 
@@ -186,7 +187,8 @@ Proof.
   destruct (shp (xb C)) eqn:SH; destruct v.
   - (* PG, V_IN *)
     apply (erase_entry_record C (xb C) s1 X1 _ tr sv a o (idx s1) PG H1).
-  - exact H1.
+  - destruct (state_trig tr); [|exact H1].
+    rewrite xout_push. unfold entry_record. destruct sv as [[[d m] t'] z]. cbn [f_flags norecord orb out]. exact H1.
   - exact H1.
   - apply (erase_entry_record C (xb C) s1 X1 _ tr sv a o (idx s1) CYG H1).
   - apply (erase_entry_record C (xb C) s1 X1 _ tr sv a o (idx s1) CYG H1).
